@@ -200,6 +200,7 @@ func runC12(c *Ctx) {
 	ruleCapsTable(c)
 
 	ruleAuthAllowedDef(c) // the table's atom authAllowed() must mean "TLS or AllowInsecureAuth"
+	ruleAuthOnce(c)       // ... and its atom didAuth must mean "an AUTH succeeded on this connection", nothing weaker
 
 	R.Rule("R-caps-reply", "E3+E4", "the capability list is sent only for EHLO/LHLO; HELO's reply carries the greeting text only", 2)
 	var sites250 []ssa.Instruction
